@@ -41,6 +41,9 @@ type stats struct {
 	Archive          int            `json:"heights_revalidated_from_archive"`
 	Unusual          int            `json:"unusually_encoded_transactions_offered"`
 	VoteFlips        int            `json:"vote_window_closed_between_caching_and_proposing"`
+	FullBlocks       int            `json:"full_blocks_of_small_transactions"`
+	FullBlockTxs     int            `json:"transactions_in_the_full_block"`
+	FullBlockBytes   int            `json:"serialized_bytes_of_the_full_block"`
 	SmallBlockChains int            `json:"chains_with_a_block_size_of_a_few_transactions"`
 	Followed         int            `json:"heights_followed_in_sync_mode_from_the_tip"`
 	ForgedTwice      int            `json:"forged_signature_transactions_offered_twice"`
@@ -89,7 +92,6 @@ func reportOf(n *sim.CNode, h uint64) report {
 
 var outDirG = "."
 
-
 var smallBlocks = os.Getenv("VERIF_SMALL_BLOCKS") != "0"
 
 func main() {
@@ -115,6 +117,13 @@ func main() {
 			// the mempool tidy, not included) - what it did with them must not show in the block it proposes
 			p.Consensus.BlockSize = lib.MaxBlockHeaderSize + 1200
 			st.SmallBlockChains++
+		}
+		fullBlockChain := c%3 == 0
+		if fullBlockChain {
+			// a block size that several hundred small transactions fill: one block of this chain is built from a mempool that
+			// exceeds it (a FULL block of many small transactions - the size limit every node applies must be the one the
+			// proposer filled the block by)
+			p.Consensus.BlockSize = lib.MaxBlockHeaderSize + 170000
 		}
 		g.Params = p
 		for i := 0; i < nv; i++ {
@@ -195,6 +204,21 @@ func main() {
 				}
 				txs = append(txs, tx)
 			}
+			if fullBlockChain && b == 3 {
+				sendFee := uint64(10000)
+				if fp, e := leader.C.FSM.GetParamsFee(); e == nil && fp != nil {
+					sendFee = fp.SendFee // governance may have changed it in an earlier block of this chain
+				}
+				for i := 0; i < 900; i++ {
+					k := sim.BLSKey(i % nKeys)
+					t, terr := fsm.NewSendTransaction(k.Priv, crypto.NewAddress(sim.BLSKey((i+1)%nKeys).Addr), 1, 1, 1, sendFee, h, fmt.Sprintf("f%d", i))
+					if terr == nil {
+						bz, _ := lib.Marshal(t)
+						txs = append(txs, bz)
+					}
+				}
+				st.FullBlocks++
+			}
 			if len(txs) > 1 && r.Chance(30) {
 				txs = append(txs, txs[0]) // duplicate offered twice
 			}
@@ -229,7 +253,7 @@ func main() {
 					hasGov = true
 				}
 			}
-			if hasGov && r.Chance(50) {
+			if hasGov && r.Chance(50) && !(fullBlockChain && b == 3) {
 				if _, e := leader.Propose(txs); e == nil {
 					for _, nd := range nodes {
 						nd.CloseVoteWindow()
@@ -246,6 +270,14 @@ func main() {
 			blk := new(lib.Block)
 			_ = lib.Unmarshal(prop.Block, blk)
 			st.Txs += len(blk.Transactions)
+			if fullBlockChain && b == 3 {
+				if os.Getenv("VERIF_DEBUG") != "" {
+					mbs, _ := leader.C.FSM.GetMaxBlockSize()
+					fmt.Fprintf(os.Stderr, "full block: offered %d, included %d, mempool count %d, height %d, max block size %d, first tx %d bytes\n", len(txs), len(blk.Transactions), leader.C.Mempool.TxCount(), h, mbs, len(blk.Transactions[0]))
+				}
+				st.FullBlockTxs = len(blk.Transactions)
+				st.FullBlockBytes = len(prop.Block)
+			}
 			st.Dropped += len(txs) - len(blk.Transactions)
 			if len(blk.Transactions) >= 6 {
 				st.BigBlocks++
